@@ -166,7 +166,8 @@ def run_driver(mode, lines, shards=None):
 _WORKER = {}
 
 
-def _worker_init(domain_mod, prop):
+def _worker_init(domain_mod, prop, tcount=None):
+    _WORKER['tcount'] = tcount
     os.environ[GUARD] = '1'
     sys.path.insert(0, REPO)
     sys.dont_write_bytecode = True
@@ -195,8 +196,9 @@ def _worker_run(chunk):
     out = []
     signal.signal(signal.SIGALRM, _alarm)
     timeouts = 0
+    tcount = _WORKER.get('tcount')
     for case in chunk:
-        if timeouts >= 3:          # this chunk has shown the non-termination three times: do not spend the run on waiting
+        if timeouts >= 3 or (tcount is not None and tcount.value >= 24):          # the non-termination has been shown often enough (per chunk / per run): do not spend the run on waiting
             out.append(('RECURSION', [], {'skipped-after-timeouts': 1})); continue
         try:
             signal.alarm(CASE_TIMEOUT)
@@ -207,6 +209,8 @@ def _worker_run(chunk):
             out.append(r)
         except CaseTimeout:
             timeouts += 1
+            if tcount is not None:
+                with tcount.get_lock(): tcount.value += 1
             # the implementation did not return: whatever the property says about the result of this call cannot hold
             out.append(('TIMEOUT', ['no-result| the implementation did not return within %d s on this case (non-termination)' % CASE_TIMEOUT], {'outcome:timeout': 1}))
         except RecursionError:
@@ -224,7 +228,8 @@ def run_impl(domain_mod, prop, cases, chunk=64):
         return []
     chunks = [cases[i:i + chunk] for i in range(0, len(cases), chunk)]
     ctx = mp.get_context('fork')
-    with ctx.Pool(min(NPROC, len(chunks)), initializer=_worker_init, initargs=(domain_mod, prop)) as pool:
+    tcount = ctx.Value('i', 0)
+    with ctx.Pool(min(NPROC, len(chunks)), initializer=_worker_init, initargs=(domain_mod, prop, tcount)) as pool:
         parts = pool.map(_worker_run, chunks)
     return [x for p in parts for x in p]
 
